@@ -1,7 +1,10 @@
 package runner
 
 import (
+	"lunar/engine/actions"
 	"lunar/engine/config"
+	lunarMessages "lunar/engine/messages"
+	"lunar/engine/services"
 	sharedConfig "lunar/shared-model/config"
 )
 
@@ -12,4 +15,16 @@ func VerifGetRemedies(method, url string, tree *config.EndpointPolicyTree) []con
 
 func VerifGetDiagnoses(method, url string, tree *config.EndpointPolicyTree) []*config.ScopedDiagnosis {
 	return getDiagnoses(method, url, tree, nil)
+}
+
+// VerifRunOnRequest is the policy-mode remedy chain itself (runs every remedy's plugin and
+// folds their actions); returns the combined action.
+func VerifRunOnRequest(
+	args lunarMessages.OnRequest,
+	remedies []config.ScopedRemedy,
+	plugins *services.RemedyPlugins,
+	accounts map[sharedConfig.AccountID]sharedConfig.Account,
+) (actions.ReqLunarAction, error) {
+	res, err := runOnRequest(args, remedies, plugins, accounts)
+	return res.action, err
 }
